@@ -2,6 +2,7 @@ package checks
 
 import (
 	"fmt"
+	"regexp"
 	"strings"
 	"sync"
 
@@ -146,24 +147,22 @@ func errKey(msg string) string {
 }
 
 // Known finding D27 (see DESIGN §5): jsight-schema-core snapshots the example of a regex user type every time the type is
-// added to a schema (each call advances a per-type generator) and merges type tables in map order when a union ('|' or
-// the 'or' rule) is involved, so the example strings embedded in a catalog can differ from build to build. Everything
-// else in the catalog is stable. regexUnionProject recognises the input class; exampleOnlyDiff the symptom.
+// added to a schema (each call advances a per-type generator). A schema that reaches the regex type both directly and
+// through another user type holds two snapshots, and which one its example shows is decided by map order: the "example"
+// strings embedded in a catalog can differ from build to build. Everything else in the catalog is stable.
+// regexUnionProject recognises the input class (a project with a regex TYPE); exampleOnlyDiff the symptom.
 func regexUnionProject(files map[string][]byte) bool {
-	regex, union := false, false
 	for _, b := range files {
-		s := string(b)
-		if strings.Contains(s, "regex") {
-			regex = true
-		}
-		if strings.Contains(s, "|") || strings.Contains(s, "or:") || strings.Contains(s, "or :") {
-			union = true
+		if reRegexType.Match(b) {
+			return true
 		}
 	}
-	return regex && union
+	return false
 }
 
-const sigRegexExample = "regex-type-example-through-union"
+var reRegexType = regexp.MustCompile(`TYPE[ \t]+"?@[^ \t\r\n]+[ \t]+"?regex`)
+
+const sigRegexExample = "regex-type-example-snapshot"
 
 // exampleOnlyDiff: two catalogs of a regex+union project that differ only inside "example" strings.
 func exampleOnlyDiff(a, b []byte, files map[string][]byte) bool {
